@@ -15,6 +15,9 @@ Import ListNotations.
 """
 
 COUNT_ESTS = {"Ngram", "Skipgram", "LZ", "BPE", "Histogram", "SlidingWindow"}   # compared exactly
+# the two thread settings run in different processes, each with its own fit; their outputs are compared with each
+# other only where fit involves no randomized SVD / GMM (whose thread dependence is not C12's subject)
+CROSS_RUN = COUNT_ESTS | {"KDE", "InfoWeight", "RowDenoise"}
 REL = 1e-6                                                                       # numeric outputs
 
 
@@ -409,8 +412,13 @@ def run(ctx, replay=None):
     cases16 = [trim16(c) for c, k in zip(cases, in16) if k]
     pos16 = {i: j for j, i in enumerate(i for i, k in enumerate(in16) if k)}
     with ThreadPoolExecutor(max_workers=3) as ex:
-        f1 = ex.submit(C.run_impl, "c12", cases, {"NUMBA_NUM_THREADS": "1"})
-        f16 = ex.submit(C.run_impl, "c12", cases16, {"NUMBA_NUM_THREADS": "16"})
+        # common.run_impl names its files by pid + millisecond and its numba cache by pid: two children started from
+        # one process need distinct start times and distinct cache directories
+        import os, time
+        cache = os.path.join(C.WORK, "numba_cache_c12_%d_" % os.getpid())
+        f1 = ex.submit(C.run_impl, "c12", cases, {"NUMBA_NUM_THREADS": "1", "NUMBA_CACHE_DIR": C.os_makedirs(cache + "t1")})
+        time.sleep(0.2)
+        f16 = ex.submit(C.run_impl, "c12", cases16, {"NUMBA_NUM_THREADS": "16", "NUMBA_CACHE_DIR": C.os_makedirs(cache + "t16")})
         (r1, info1), (r16, info16) = f1.result(), f16.result()
     results = {}
     ctx.coverage["modes"] = {"NUMBA_NUM_THREADS=1": {"wall_s": info1["wall_s"], "ops": sum(len(c["ops"]) for c in cases)},
@@ -442,7 +450,7 @@ def run(ctx, replay=None):
                 continue
             n_oracle += 1
             ref = None
-            if tag == "16" and "ok" in results["1"][i]:
+            if tag == "16" and "ok" in results["1"][i] and c["est"] in CROSS_RUN:
                 ref = results["1"][i]["ok"][0]
             bad = check_case(cc, r["ok"], ref)
             for msg, op in bad[:1]:
